@@ -1,5 +1,7 @@
 //! Provides [PriceRepository], which can compute the commodity (currency) conversion.
 
+#[cfg(okane_verif)]
+use crate::verif::std;
 use std::{
     collections::{hash_map, BinaryHeap, HashMap},
     path::Path,
